@@ -247,6 +247,12 @@ def run(program, res, tier):
     _s2(program, res)
     _s2b(program, res)
     _s3(program, res)
+    # the expression text inside the printed pipeline has to be readable by the expression parser (shared with C13)
+    from . import c13
+    from ..report import Relabel
+    res.rule("C12-S6", "operators, constants and column names print as expression text the parser reads back")
+    c13.printable_ops_rule(program, Relabel(res, {"*": "C12-S6"}), rule="C12-S6")
+    c13.printable_literals_rule(program, Relabel(res, {"*": "C12-S6"}), rule="C12-S6", column_names=True)
 
 
 # optional fields that can hold a falsy value different from "not given" (0 is a limit; None is no limit)
@@ -433,12 +439,24 @@ def _s2b(program, res, rule="C12-S2"):
     g = cfgmod.build(vp.node)
     tests = [t for t in g.stmt_nodes(("test",)) if "want_inline_parens" in unparse(t.cond)]
     ok = False
+    by_comparison = None
     for t in tests:
         c = unparse(t.cond)
-        if "< 0" in c or "<0" in c or "startswith('-')" in c or 'startswith("-")' in c:
+        textual = "startswith('-')" in c or 'startswith("-")' in c or "copysign" in c
+        numeric = any(isinstance(x, ast.Compare) and len(x.ops) == 1 and isinstance(x.ops[0], (ast.Lt, ast.LtE)) and isinstance(x.comparators[0], ast.Constant)
+                      and x.comparators[0].value == 0 for x in ast.walk(t.cond))
+        if textual or numeric:
             wrapped = [r for r in g.returns() if any(b is t and lab is True for b, lab in g.lexical_guards(r)) and '"("' in unparse(r.stmt.value).replace("'", '"')]
             if wrapped:
                 ok = True
+                if numeric and not textual:
+                    by_comparison = t
+    if ok and by_comparison is not None:
+        res.fail_at(rule, vp, "negative-zero-ungrouped",
+                    "Value.to_python decides 'starts with a minus' by comparing the number with 0: -0.0 < 0 is False, so (-0.0) ** y prints as -0.0 ** y and "
+                    "re-parses as -(0.0 ** y) — a different tree and the opposite sign of zero; the test has to look at the printed text (or the sign bit)",
+                    by_comparison.stmt if hasattr(by_comparison, "stmt") else None)
+        return
     if ok:
         res.ok(rule, "Value.to_python groups a negative numeric literal when want_inline_parens is set")
     else:
@@ -459,6 +477,34 @@ def _s3(program, res):
         res.fail_at("C12-S3", vp, "value-not-repr", "Value.to_python converts the literal with str(): strings lose their quotes, floats their precision")
     else:
         raise AnalysisError("Value.to_python: conversion of self.value not found")
+    # what repr prints is evaluable only for the builtin scalar types: a constant admitted through the type-equivalence table
+    # (numpy scalars) has to be stored as its canonical builtin type, or be converted before printing
+    vi = program.method("expr_rep", "Value", "__init__", inherited=False)
+    res.analysed(vi)
+    admits_foreign = any(isinstance(c, ast.Call) and (dotted_name(c.func) or "").endswith("map_type_to_canonical")
+                         and any(isinstance(a, ast.Call) and dotted_name(a.func) == "type" for a in c.args) for c in ast.walk(vi.node))
+    if admits_foreign:
+        canon_names = {st.targets[0].id for st in ast.walk(vi.node) if isinstance(st, ast.Assign) and len(st.targets) == 1 and isinstance(st.targets[0], ast.Name)
+                       and isinstance(st.value, ast.Call) and (dotted_name(st.value.func) or "").endswith("map_type_to_canonical")}
+
+        def _converts(fn_node, subject):
+            for c in ast.walk(fn_node):
+                if isinstance(c, ast.Call) and len(c.args) == 1 and unparse(c.args[0]) == subject:
+                    f = c.func
+                    if isinstance(f, ast.Name) and f.id in canon_names:
+                        return True
+                    if isinstance(f, ast.Call) and (dotted_name(f.func) or "").endswith("map_type_to_canonical"):
+                        return True
+                if isinstance(c, ast.Call) and isinstance(c.func, ast.Attribute) and c.func.attr == "item" and unparse(c.func.value) == subject:
+                    return True
+            return False
+
+        if _converts(vi.node, "value") or _converts(vp.node, "self.value"):
+            res.ok("C12-S3", "a constant admitted through the type-equivalence table is converted to its canonical builtin type before it is printed")
+        else:
+            res.fail_at("C12-S3", vi, "foreign-scalar-printed-with-its-own-repr",
+                        "Value admits any type the equivalence table maps to int/float/str/bool (numpy scalars) but stores and prints the object as given: "
+                        "repr(numpy.float64(2.0)) is 'np.float64(2.0)', so select_rows(x > numpy.float64(2.0)) prints text that can not be evaluated (unknown symbol np)")
     # dict keys of ops printed with repr in node printers: k.__repr__() + ": " + opi.to_python().__repr__()
     for cname in ("ExtendNode", "ProjectNode"):
         pr = program.method("view_representations", cname, "to_python_src_", inherited=False)
